@@ -467,7 +467,7 @@ def ref_types_inclusions(r, want):
 
 def try_parse_http_rule_table():
     """HttpRule.try_parse_http_rule decided on its normal form, evaluated (vlib/pyeval.py, convert_uri_fieldnames and cls kept abstract)
-    over the finite models verb in {None, 'custom', 'get'} x uri in {'', '/v1/x'} x body in {'', reserved, reserved_, ordinary, keyword}:
+    over the finite models verb in {None, 'custom', 'get', 'put', 'post', 'delete', 'patch'} x uri in {'', '/v1/x'} x body in {'', reserved, reserved_, ordinary, keyword}:
     None for an absent / custom pattern or an empty uri; otherwise cls(verb, convert_uri_fieldnames(uri), body') where body' is the body
     with ONE trailing underscore iff it is reserved and not yet suffixed (None for no body).
     Returns (mismatches, shown) or (None, reason) when the function cannot be evaluated."""
@@ -482,8 +482,12 @@ def try_parse_http_rule_table():
     reserved = m.const("gapic.utils.reserved_names", "RESERVED_NAMES")
     param = [a.arg for a in tp.node.args.args if a.arg not in ("cls", "self")][0]
     bad = []
-    for verb, uri, body in itertools.product((None, "custom", "get"), ("", "/v1/x"), ("", "type", "type_", "name", "class")):
-        rule = {"body": body, "get": uri, "custom": {"kind": "x"} if verb == "custom" else None}
+    for verb, uri, body in itertools.product((None, "custom", "get", "put", "post", "delete", "patch"), ("", "/v1/x"), ("", "type", "type_", "name", "class")):
+        # every verb of the google.api.HttpRule pattern oneof is a model point: the body is a function of the `body` option alone,
+        # whatever the verb (seed C04e dropped it for `delete`)
+        rule = {"body": body, "custom": {"kind": "x"} if verb == "custom" else None}
+        if verb not in (None, "custom"):
+            rule[verb] = uri
         funcs = {f"{param}.WhichOneof": lambda _a, _v=verb: _v,
                  "getattr": lambda o, a, *d: (o.get(a) if isinstance(o, dict) and a is not None and a in o else (d[0] if d else UNKNOWN)),
                  "cls": lambda *a, **k: ("HttpRule",) + tuple(a) + tuple(sorted(k.items())),
